@@ -18,6 +18,8 @@ THEOREMS = [
     'Nb.C05.slicer_world',
     'Nb.C05.slicer_orig_counterexample',
     'Nb.C05.reorient_world',
+    'Nb.C05.reorient_injective',
+    'Nb.C05.reorient_size',
     'Nb.C05.dim_info_follows',
     'Nb.C05.allOrnts3_valid',
     'Nb.C05.ornt_axcodes_roundtrip',
